@@ -23,6 +23,7 @@ fn arg_val(args: &[String], name: &str) -> Option<String> {
 }
 
 fn run_engine<E: Engine>(mut eng: E, mode: &str, args: &[String]) -> serde_json::Value {
+    eng.configure(args);
     match mode {
         "replay" => {
             let opts = ReplayOpts {
@@ -82,6 +83,7 @@ fn main() {
     let out = match engine {
         "inflight" => run_engine(engines::inflight::InFlightEngine::new(), mode, rest),
         "window" => run_engine(engines::window::WindowEngine::new(), mode, rest),
+        "selection" => run_engine(engines::selection::SelectionEngine::new(), mode, rest),
         _ => {
             eprintln!("unknown engine {engine}");
             std::process::exit(2)
